@@ -160,6 +160,40 @@ pub fn run(_args: &Args, rep: &mut Report) {
             }
         }
     }
+    // every length again through FromStr / str::parse, which must agree with from_hex
+    for len in 0..=130usize {
+        for filler in ['a', '0', 'F', 'g', ' '] {
+            ev(rep);
+            let s: String = std::iter::repeat(filler).take(len).collect();
+            let want_ok = len == 64 && filler.is_ascii_hexdigit();
+            let r = vcommon::catch(|| (blake3::Hash::from_str(&s).is_ok(), s.parse::<blake3::Hash>().is_ok()));
+            if r != Ok((want_ok, want_ok)) {
+                v(rep, "FromStr:length", format!("len {} filler {:?}: {:?}, expected ok={}", len, filler, r, want_ok), json!({"kind": "fromstr-len", "len": len, "filler": filler.to_string()}));
+            }
+        }
+    }
+    // a valid 64-digit string with something around it is not a 64-character hex string: every
+    // decoration x {before, after, both}, through from_hex(&str), from_hex(&[u8]) and FromStr
+    let decorations = [" ", "\n", "\r\n", "\t", "\u{b}", "\u{c}", "\0", "\u{a0}", "\u{3000}", "\u{feff}", "\u{2028}", "\u{85}", "0x", "0X", "+", "-", "\"", "'", ",", ";", ":", "=", "#", "h", "0", "00"];
+    for d in decorations {
+        for (where_, s) in [("before", format!("{}{}", d, valid)), ("after", format!("{}{}", valid, d)), ("both", format!("{}{}{}", d, valid, d))] {
+            ev(rep);
+            let r = vcommon::catch(|| (blake3::Hash::from_hex(s.as_str()).is_ok(), blake3::Hash::from_hex(s.as_bytes()).is_ok(), blake3::Hash::from_str(&s).is_ok(), s.parse::<blake3::Hash>().is_ok()));
+            if r != Ok((false, false, false, false)) {
+                v(rep, "from_hex/FromStr:accepts-decorated", format!("{:?} {} a valid string: (from_hex str, from_hex bytes, FromStr, parse) accepted = {:?}", d, where_, r), json!({"kind": "decorated", "decoration": d, "where": where_}));
+            }
+        }
+    }
+    // ... and one shorter string padded back to 64 characters
+    for d in [" ", "\n", "\t", "\0"] {
+        for (where_, s) in [("before", format!("{}{}", d, &valid[1..])), ("after", format!("{}{}", &valid[..63], d))] {
+            ev(rep);
+            let r = vcommon::catch(|| (blake3::Hash::from_hex(s.as_str()).is_ok(), blake3::Hash::from_str(&s).is_ok()));
+            if r != Ok((false, false)) {
+                v(rep, "from_hex/FromStr:accepts-padded", format!("63 digits with {:?} {}: {:?}", d, where_, r), json!({"kind": "padded", "decoration": d, "where": where_}));
+            }
+        }
+    }
     // non-ASCII text whose *byte* length is 64
     for s in ["é".repeat(32), format!("{}é", "a".repeat(62)), format!("𝄞{}", "0".repeat(60))] {
         ev(rep);
@@ -197,6 +231,66 @@ pub fn run(_args: &Args, rep: &mut Report) {
                 v(rep, "PartialEq:single-bit-difference-equal", format!("bit {}: {:?}", bit, r), json!({"kind": "eq-bit", "background": bi, "bit": bit}));
             }
         }
+        // differences in two and three bytes, chosen so that they cancel under the usual ways of
+        // folding a difference (xor of words, sums of bytes or words, or of the wrong width): every pair
+        // of positions x every pair of masks from a small set; every triple with masks (a, b, a^b);
+        // +d at one position and -d at another
+        let masks = [0x01u8, 0x80, 0xff, 0x5a];
+        let mut differs = |rep: &mut Report, o: [u8; 32], what: String| {
+            ev(rep);
+            let oh = blake3::Hash::from_bytes(o);
+            let r = vcommon::catch(|| (h == oh, oh == h, h == o, h == o[..], !(h != oh)));
+            if r != Ok((false, false, false, false, false)) {
+                v(rep, "PartialEq:different-bytes-equal", format!("{}: (h==o, o==h, h==[u8;32], h==[u8], !(h!=o)) = {:?}", what, r), json!({"kind": "eq-multi", "background": bi, "other": vcommon::hex(&o)}));
+            }
+        };
+        for i in 0..32 {
+            for j in (i + 1)..32 {
+                for m1 in masks {
+                    for m2 in masks {
+                        let mut o = *bg;
+                        o[i] ^= m1;
+                        o[j] ^= m2;
+                        differs(rep, o, format!("bytes {} and {} xor {:#x}, {:#x}", i, j, m1, m2));
+                    }
+                }
+                for d in [1u8, 0x80] {
+                    let mut o = *bg;
+                    o[i] = o[i].wrapping_add(d);
+                    o[j] = o[j].wrapping_sub(d);
+                    differs(rep, o, format!("byte {} + {}, byte {} - {}", i, d, j, d));
+                }
+                for k in (j + 1)..32 {
+                    for (a, b) in [(0x01u8, 0x01u8), (0x01, 0x02), (0xff, 0x0f)] {
+                        let mut o = *bg;
+                        o[i] ^= a;
+                        o[j] ^= b;
+                        o[k] ^= if a == b { a } else { a ^ b };
+                        differs(rep, o, format!("bytes {}, {}, {} xor {:#x}, {:#x}, ..", i, j, k, a, b));
+                    }
+                }
+            }
+        }
+        // whole-word differences: every pair of the 8-, 4- and 2-byte words swapped or both complemented
+        for w in [2usize, 4, 8, 16] {
+            for a in 0..(32 / w) {
+                for b in (a + 1)..(32 / w) {
+                    let mut o = *bg;
+                    for t in 0..w {
+                        o.swap(a * w + t, b * w + t);
+                    }
+                    if o != *bg {
+                        differs(rep, o, format!("{}-byte words {} and {} swapped", w, a, b));
+                    }
+                    let mut o = *bg;
+                    for t in 0..w {
+                        o[a * w + t] = !o[a * w + t];
+                        o[b * w + t] = !o[b * w + t];
+                    }
+                    differs(rep, o, format!("{}-byte words {} and {} complemented", w, a, b));
+                }
+            }
+        }
         // slices of every length 0..=70 that agree on the common prefix
         let mut ext = [0u8; 80];
         ext[..32].copy_from_slice(bg);
@@ -214,7 +308,7 @@ pub fn run(_args: &Args, rep: &mut Report) {
     #[cfg(not(feature = "serde"))]
     rep.notes.push("built without serde: serde conversions not explored in this build".into());
     rep.configs.push(crate::subject::config_json());
-    rep.rule = "every byte value at every one of the 32 positions on three backgrounds through to_hex/Display/Debug/from_hex(&str,&[u8],String)/FromStr/[u8;32]/slices (lower and upper case); every byte value at every one of the 64 positions of a valid hex string (accept iff hex digit, value as defined); every length 0..=130 x 7 fillers; from_slice on every length 0..=70; equality for all 256 single-bit differences x 3 bases and slices of every length sharing the prefix; serde JSON and CBOR (sequence and byte-string forms) for every byte value at every position; non-trivial = distinct cases".into();
+    rep.rule = "every byte value at every one of the 32 positions on three backgrounds through to_hex/Display/Debug/from_hex(&str,&[u8],String)/FromStr/[u8;32]/slices (lower and upper case); every byte value at every one of the 64 positions of a valid hex string (accept iff hex digit, value as defined); every length 0..=130 x 7 fillers; from_slice on every length 0..=70; equality for all 256 single-bit differences x 3 bases, all two-byte differences (every pair of positions x 16 mask pairs, +d/-d), all three-byte differences with cancelling masks, swapped / complemented words, and slices of every length sharing the prefix; FromStr on every length and 26 decorations (whitespace, prefixes, quotes) before / after / around a valid string; serde JSON and CBOR (sequence and byte-string forms) for every byte value at every position; non-trivial = distinct cases".into();
     rep.sample(json!({"kind": "from_hex-byte", "pos": 17, "value": 0x47, "expect": "Err"}));
     rep.sample(json!({"kind": "eq-len", "len": 31, "expect": "not equal"}));
     rep.assumptions.push("the 2^256 value space is decomposed per position (the code treats positions independently)".into());
